@@ -10,11 +10,22 @@
   `gather` only changes when callbacks finish, not which event they belong to).  Proved directly on the async
   model by simulation (Proofs/C05AGen.lean, Proofs/C05A.lean), a port of the synchronous proof.
 
+  `C05A_queued_history_partial` — the same under the observation map of property C07 and by TRANSPORT: under the
+  hypotheses of `C07_flat_partial` the synchronous run exists, its trace is accepted (`C05_queued_history`), the two
+  traces have the same observation `obsC07` (`Agree`), and the OBSERVED async trace `obsC07 tr` is accepted as well.
+  The last step uses `C05_idle_obsC07_gen` (Proofs/C05Filter.lean): the acceptor is insensitive to the items
+  `obsC07` removes (`done` items, starts of dead conditions) on traces without remove_model calls — and the async
+  engine logs none (Proofs/C05ANR.lean).  In fact the observed async trace is accepted for EVERY script
+  (`C05A_queued_history_obs`); the regime `WellStaged` is needed for the comparison with the synchronous run only.
+
   `remove_model` is not a command of the async model (`Async.runCmd` answers `oof` for everything but `trigger`),
   so that clause is covered for the async classes by the sync-vs-async twin of harness/props/c05.py only.
 -/
 import Proofs.C05A
+import Proofs.C05ANR
+import Proofs.C05Filter
 import Props.C05
+import Props.C07
 
 namespace TM
 open C05 A5
@@ -170,5 +181,59 @@ theorem C05A_queued_history (fin0 : Nat) (sc : Script) (kd : Async.Kinds) (cfg :
         cases n with
         | zero => simp at hn
         | succ n => rw [a1]; exact a2 n (by simpa using hn)
+
+/-- the observed async trace (`obsC07`: `done` items and the starts of dead conditions dropped) is accepted too —
+for EVERY script and kind assignment -/
+theorem C05A_queued_history_obs (fin0 : Nat) (sc : Script) (kd : Async.Kinds) (cfg : Cfg) (qmax fuel : Nat)
+    (rest : List Nat) (hfin : cfg.finalize = fin0 :: rest) (hnot : fin0 ∉ rest) :
+    ∀ (h : List Cmd) (s : St), s.queue = [] →
+    ∀ s', Async.runHistory sc kd cfg 1 qmax fuel h s = some s' →
+      ∃ tr, s'.log = s.log ++ tr ∧ ∀ n, h.length ≤ n → idle fin0 n (C07.obsC07 cfg sc tr) = true := by
+  intro h s hq0 s' hs'
+  obtain ⟨_, tr, hl, hacc⟩ := C05A_queued_history fin0 sc kd cfg qmax fuel rest hfin hnot h s hq0 s' hs'
+  obtain ⟨seg, hl2, hnr⟩ := runHistory_nr sc kd cfg 1 qmax fuel h s s' hs'
+  have : seg = tr := List.append_cancel_left (hl2.symm.trans hl)
+  subst this
+  exact ⟨seg, hl, fun n hn => C05_idle_obsC07_gen fin0 cfg sc n seg hnr (hacc n hn)⟩
+
+/-- **C05 (queued=True) on the async engine by transport through `Agree` (regime of C07).**  Under the hypotheses
+of `C07_flat_partial` (qm = 1): the synchronous run of the same history exists and its trace is accepted by the
+abstract queue, the async trace has the same observation `obsC07`, and the observed async trace is accepted. -/
+theorem C05A_queued_history_partial (fin0 : Nat) (cfg : Cfg) (sc : Script) (kd : Async.Kinds) (m0 qmax fuel : Nat)
+    (h : List Cmd) (s : St)
+    (hq : cfg.queued = true) (hsc : C07.ScriptOK 1 m0 sc) (hh : ∀ c ∈ h, C07.CmdOK 1 m0 c)
+    (hW : C07.WellStaged cfg sc)
+    (rest : List Nat) (hfin : cfg.finalize = fin0 :: rest) (hnot : fin0 ∉ rest) (hidle : s.queue = []) :
+    ∀ sa, Async.runHistory sc kd cfg 1 qmax fuel h s = some sa →
+      ∃ ss tra trs, runHistory sc cfg qmax fuel h s = some ss ∧
+        sa.log = s.log ++ tra ∧ ss.log = s.log ++ trs ∧ sa.queue = [] ∧ ss.queue = [] ∧
+        sa.mstate = ss.mstate ∧
+        C07.obsC07 cfg sc tra = C07.obsC07 cfg sc trs ∧
+        (∀ n, h.length ≤ n → idle fin0 n trs = true) ∧
+        (∀ n, h.length ≤ n → idle fin0 n (C07.obsC07 cfg sc tra) = true) := by
+  intro sa hsa
+  have hagree := C07_flat_partial cfg sc kd 1 m0 qmax fuel h s (by rw [hq]; rfl) hsc hh
+    (by intro h2; exact absurd h2 (by decide)) hW
+  rw [hsa] at hagree
+  cases hss : runHistory sc cfg qmax fuel h s with
+  | none => rw [hss] at hagree; exact hagree.elim
+  | some ss =>
+    rw [hss] at hagree
+    obtain ⟨hobs, hms, _, hqq⟩ := hagree
+    -- the synchronous trace is accepted
+    have hcmds : CmdsOK sc := by
+      intro c k cmd hc
+      obtain ⟨m, ev, rfl, _⟩ := hsc c k cmd hc
+      trivial
+    have hhist : ∀ c ∈ h, CmdOK c := by
+      intro c hc
+      obtain ⟨m, ev, rfl, _⟩ := hh c hc
+      trivial
+    obtain ⟨hsq, trs, hls, haccs⟩ := C05_queued_history fin0 sc cfg qmax fuel hq hcmds rest hfin hnot h s hidle hhist ss hss
+    obtain ⟨tra, hla, hacca⟩ := C05A_queued_history_obs fin0 sc kd cfg qmax fuel rest hfin hnot h s hidle sa hsa
+    refine ⟨ss, tra, trs, rfl, hla, hls, by rw [hqq]; exact hsq, hsq, hms, ?_, haccs, hacca⟩
+    have : C07.obsC07 cfg sc (s.log ++ tra) = C07.obsC07 cfg sc (s.log ++ trs) := by rw [← hla, ← hls]; exact hobs
+    simp only [C07.obsC07, List.filter_append] at this ⊢
+    exact List.append_cancel_left this
 
 end TM
